@@ -39,7 +39,7 @@ def _quiet(f):
 def make_case(rng, i, ctx):
     D = int(rng.choice([1, 1, 2]))
     n = int(rng.integers(1, 5)) if D == 1 else int(rng.integers(2, 5))
-    nkeys = int(rng.choice([1, 1, 2, 3]))
+    nkeys = int(rng.choice([1, 1, 2, 3])) if i % 5 else int(rng.choice([2, 3]))
     basis = BASIS[(n, D)]
     keys = ['b', 'a', 'c'][:nkeys]
     models, xs, design = {}, {}, []
@@ -51,7 +51,7 @@ def make_case(rng, i, ctx):
                     terms.append((k, ex, 1.0 if nkeys == 1 else float(np.round(rng.uniform(0.5, 2.0), 2))))
             if terms:
                 break
-        npts = int(rng.integers(max(2, n), 8))
+        npts = int(rng.integers(max(2, n), 8)) if i % 5 else int(rng.integers(2, 4))
         if D == 1:
             x = np.round(np.sort(rng.choice(np.arange(1, 40), size=npts, replace=False)) * 0.25, 3)
         else:
@@ -75,10 +75,10 @@ def make_case(rng, i, ctx):
         return None
     ptrue = np.round(rng.uniform(0.5, 2.0, size=n) * rng.choice([1, -1], size=n), 2)
     truth = A @ ptrue
-    kind = str(rng.choice(['independent', 'shared', 'mixed']))
+    kind = str(rng.choice(['independent', 'shared', 'mixed'])) if i % 5 else 'shared'      # every fifth case: combined fit on one ensemble (correlated chi^2 possible)
     m = len(truth)
     corr_mode = 'none'
-    if kind == 'shared' and m <= 7 and rng.random() < 0.6:
+    if kind == 'shared' and m <= 9 and (rng.random() < 0.6 or i % 5 == 0):
         corr_mode = str(rng.choice(['estimated', 'supplied']))
     yall = fitgen.data_points(rng, truth, kind, m, nsamp=60 if corr_mode != 'none' else 40)
     [o.gamma_method() for o in yall]
@@ -98,7 +98,16 @@ def make_case(rng, i, ctx):
 
     def prior_value(k):
         v = float(ptrue[k]) * float(rng.uniform(0.8, 1.2))
-        return '%.2f(%d)' % (v, int(rng.integers(20, 90)))
+        form = int(rng.integers(0, 5))
+        if form == 0:
+            return '%.2f(%d)' % (v, int(rng.integers(20, 90)))
+        if form == 1:
+            return '%.1f0(%d)' % (v, int(rng.integers(20, 90)))            # value text ending in a zero
+        if form == 2:
+            return '%.3f(%d)' % (round(v, 1), int(rng.integers(200, 900)))     # two trailing zeros
+        if form == 3:
+            return '%.1f(%.1f)' % (v, float(rng.uniform(0.2, 0.9)))            # error with its own decimal point
+        return '%d(%d)' % (int(round(v)) or 1, int(rng.integers(1, 3)))        # integers
     priors = None
     if prior_form == 'list_str':
         priors = [prior_value(k) for k in range(n)]
@@ -162,9 +171,11 @@ def make_case(rng, i, ctx):
         items = sorted(pr.items()) if isinstance(pr, dict) else list(enumerate(pr))
         # operands of the propagation follow the order in which the priors were handed in
         items = list(pr.items()) if isinstance(pr, dict) else list(enumerate(pr))
+        given = priors if isinstance(priors, dict) else dict(enumerate(priors))
         for k, po in items:
             po.gamma_method()
-            pri.append({'pos': int(k) + 1, 'o': project_obs(po), 'v': rat(float(po.value)), 'dv': rat(float(po.dvalue))})
+            pri.append({'pos': int(k) + 1, 'o': project_obs(po), 'v': rat(float(po.value)), 'dv': rat(float(po.dvalue)),
+                        's': given[k] if isinstance(given[k], str) else ''})
     rec = fitgen.fit_result_record(res, corr_mode != 'none')
     rec['ncov'] = int(min(o.N for o in ysorted))
     cid = 'fit-%04d-n%dD%d-k%d-%s-%s-%s-%s%s' % (i, n, D, nkeys, kind, prior_form, corr_mode, method.replace('-', ''), '-num' if numgrad else '')
